@@ -384,12 +384,18 @@ def i_SW(ins, fmap):
 
 
 @__npc
+def i_SD(ins, fmap):
+    dst, src = ins.operands
+    fmap[dst] = fmap(src)
+
+
+@__npc
 def i_LB(ins, fmap):
     dst, src = ins.operands
     fmap[dst] = fmap(src).signextend(64)
 
 
-i_LH = i_LW = i_LB
+i_LH = i_LW = i_LD = i_LB
 
 
 @__npc
@@ -398,7 +404,7 @@ def i_LBU(ins, fmap):
     fmap[dst] = fmap(src).zeroextend(64)
 
 
-i_LHU = i_LBU
+i_LHU = i_LWU = i_LBU
 
 
 @__npc
